@@ -107,3 +107,7 @@ impl From<ValueError> for ExpressionError {
         }
     }
 }
+
+#[cfg(kani)]
+#[path = "/verif/kani/value_error.rs"]
+mod kani_verif;
